@@ -88,6 +88,6 @@ func (b *Built) SchemaModule(tops []string) []byte {
 		}
 		fmt.Fprintf(&sb, "n = %s -> T%d", strconv.Quote(n), i)
 	}
-	sb.WriteString("\nTopNames == " + tlaValue(tops) + "\n====\n")
+	sb.WriteString("\nTopNames == " + tlaValue(tops) + "\nAllNames == " + tlaValue(names) + "\n====\n")
 	return []byte(sb.String())
 }
